@@ -9,7 +9,12 @@ import Spine.DiscoveryFixed
     `Cfg` selects, per defect, the code as written (`true`) or the minimal repair (`false`):
     * `wholeMessage`   — a notification entry is handled by adding / removing the whole message (C06 defect);
     * `bindEntityOnly` — `RemoveBindingsForEntity` compares the entity address only, not the device
-                         (binding_manager.go:176; the C10 defect seen from the entity-removal side). -/
+                         (binding_manager.go:176; the C10 defect seen from the entity-removal side).
+    "As written" = the pinned commit a1767d0; the repairs are 437adab (`wholeMessage`), d78a414 (`bindEntityOnly`),
+    711ee79 (`removesDevInfo`), 6fceef1 (`refreshUnguarded`). `treeStep` / `World.step` of this file are the members
+    WITHOUT the two device-information guards and for well-formed messages only; the member of the repaired tree,
+    with the guards and with the rejection of malformed entries, is `treeStepG` / `World.stepG` in
+    `Spine/DiscoveryGuard.lean`. -/
 namespace Spine.Disc
 
 /-- a registry entry: client feature (peer, entity, feature) of a remote device on a server feature (entity, feature)
@@ -35,9 +40,16 @@ deriving DecidableEq, Repr
 structure Cfg where
   wholeMessage : Bool := true
   bindEntityOnly : Bool := true
+  /-- a `removed` entry about the device-information entity [0] removes it (pinned commit); `false`: the entry is
+      skipped (711ee79). Read by the guarded member only (`Spine/DiscoveryGuard.lean`). -/
+  removesDevInfo : Bool := true
+  /-- a re-announcement of [0] whose feature list lacks feature 0 replaces the features (pinned commit); `false`: it is
+      ignored while the stored entity has feature 0 (6fceef1). Read by the guarded member only. -/
+  refreshUnguarded : Bool := true
 deriving Repr, DecidableEq
 
-def Cfg.clean : Cfg := { wholeMessage := false, bindEntityOnly := false }
+def Cfg.clean : Cfg :=
+  { wholeMessage := false, bindEntityOnly := false, removesDevInfo := false, refreshUnguarded := false }
 
 structure World where
   trees : Nat → Tree
